@@ -278,7 +278,7 @@ def h_seen(d, lang, sx, sy, lf, symbase, variant='two'):
     return True
 
 
-def h_unary(d, lang, nkeys, sk, lf, table_kind='dict'):
+def h_unary(d, lang, nkeys, sk, lf, table_kind='dict', self_target=False):
     """tables with symbolic keys: exactly the configured targets in order for a key, nothing otherwise"""
     from depccg.cat import Category
     g = grammar(lang)
@@ -294,6 +294,8 @@ def h_unary(d, lang, nkeys, sk, lf, table_kind='dict'):
         if k in table:        # equal keys collapse, as in a real dict
             continue
         ts = [pool[(i + j) % len(pool)] for j in range(1 + i % 3)]
+        if self_target:
+            ts = [k] + ts + [k]      # a table may map a category to itself (and list a target twice): exactly the configured targets, in order
         table[k] = ts
         targets.append((k, ts))
     sx0 = snapshot(x)
@@ -405,6 +407,7 @@ def obligations(tier):
                     continue
                 yield Obligation('C14.unary[%s,keys=%d,%s]' % (lang, nkeys, shape_name(sk)), 'h_unary', dict(lang=lang, nkeys=nkeys, sk=sk, lf=1 if lang == 'ja' else 2), cost=10)
                 if nkeys == 1:
+                    yield Obligation('C14.unary[%s,keys=1,%s,table with self-targets]' % (lang, shape_name(sk)), 'h_unary', dict(lang=lang, nkeys=1, sk=sk, lf=1, self_target=True), cost=10)
                     yield Obligation('C14.unary[%s,keys=1,%s,defaultdict table]' % (lang, shape_name(sk)), 'h_unary', dict(lang=lang, nkeys=1, sk=sk, lf=1, table_kind='defaultdict'), cost=10)
     for sx, sy in (('a', 'a'), (('a', 'a'), 'a')):
         yield Obligation('C14.apply_rules[%s,%s]' % (shape_name(sx), shape_name(sy)), 'h_apply_rules', dict(sx=sx, sy=sy), cost=10)
